@@ -1,0 +1,14 @@
+//go:build verif
+
+package fitcsv
+
+import "github.com/muktihari/fit/profile/typedef"
+
+// Verification hooks (build tag "verif" only): expose the generated lookup tables of the CSV reader so
+// that an external harness can dump them. No production code calls these.
+
+// VerifMesgNumLookup returns the reader's message-name → message-number table.
+func VerifMesgNumLookup() map[string]typedef.MesgNum { return mesgNumLookup }
+
+// VerifFieldNumLookup returns the reader's per-message field-name → field-number tables.
+func VerifFieldNumLookup() []map[string]byte { return fieldNumLookup[:] }
